@@ -57,6 +57,9 @@ def run(ctx):
     scns.append({"id": 53, "n": 40, "prios": 2, "rseed": rnd.randrange(1 << 30), "faults": False, "onetype": True,
                  "createlimitms": 250, "reportbroken": 2, "reportbrokenms": 200, "execms": 60, "stalems": 3000,
                  "deadlinefactor": 100})
+    # the cloud answers the first Create call with a quota error, then has capacity; one container per instance type
+    scns.append({"id": 54, "n": 3, "prios": 1, "rseed": rnd.randrange(1 << 30), "faults": False, "quotafirst": 1,
+                 "stalems": 3000, "deadlinefactor": 100})
     # the same fault-free run once more at the end: a machine that has become much slower during the
     # check makes the deadlines meaningless
     scns.append(dict(scns[0], id=99))
